@@ -160,6 +160,10 @@ type Tracer struct {
 	// every static call site of that function in the module, up to Lift caller levels ("origins over all callers":
 	// a construct that a refactoring moved into a helper is traced as if it were still inlined in its callers).
 	Lift int
+	// LiftFilter, when set, restricts the lifting to call sites in functions it accepts (e.g. those on the message trees).
+	LiftFilter func(caller *ssa.Function) bool
+	// Stop lists callees (by name suffix) whose result is a leaf and whose arguments are not traced further.
+	Stop []string
 }
 
 func (w *World) Tracer() *Tracer {
@@ -386,7 +390,17 @@ func (st *tstate) trace(v ssa.Value, path []string, c *tctx) {
 			}
 		}
 		if st.t.Lift > 0 && st.lifted < st.t.Lift {
-			if callers := st.t.w.CG().Callers[x.Parent()]; len(callers) > 0 {
+			callers := st.t.w.CG().Callers[x.Parent()]
+			if st.t.LiftFilter != nil {
+				var kept []*Site
+				for _, cs := range callers {
+					if st.t.LiftFilter(cs.Caller) {
+						kept = append(kept, cs)
+					}
+				}
+				callers = kept
+			}
+			if len(callers) > 0 {
 				idx := -1
 				for i, p := range x.Parent().Params {
 					if p == x {
@@ -608,6 +622,9 @@ func (st *tstate) allocContents(root *ssa.Alloc, cur ssa.Value, prefix []string,
 			}
 		case *ssa.Call:
 			// the address escapes into a call (out-parameter such as cdc.MustUnmarshal(b, &x)) — only when passed as argument
+			if hasSuffixAny(callName(r.Common()), readOnlyPointerCallees...) {
+				continue // the callee only reads through the pointer (marshalling, rendering)
+			}
 			for _, a := range r.Common().Args {
 				if a == cur {
 					if st.killed(root, r, prefix, path) {
@@ -626,6 +643,9 @@ func (st *tstate) allocContents(root *ssa.Alloc, cur ssa.Value, prefix []string,
 			if r.X == cur && r.Referrers() != nil {
 				for _, rr := range *r.Referrers() {
 					if call, ok := rr.(*ssa.Call); ok {
+						if hasSuffixAny(callName(call.Common()), readOnlyPointerCallees...) {
+							continue
+						}
 						st.o.Calls[call] = true
 						st.leaf("outparam", call, path)
 						n++
@@ -752,6 +772,9 @@ func (st *tstate) traceCall(call *ssa.Call, idx int, path []string, c *tctx) {
 	// leaf call: record it, and trace its arguments (over-approximate dependence)
 	st.o.Ops[name] = true
 	st.leaf("call", call, path)
+	if len(st.t.Stop) > 0 && hasSuffixAny(name, st.t.Stop...) {
+		return
+	}
 	if cc.IsInvoke() {
 		st.trace(cc.Value, nil, c)
 	}
@@ -910,3 +933,6 @@ func (w *World) throughHelpers(v ssa.Value, stopAt ...string) (ssa.Value, func(s
 	}
 	return v, subst
 }
+
+// readOnlyPointerCallees: dependency functions that take a pointer only to read what it points to.
+var readOnlyPointerCallees = []string{"codec.BinaryCodec.MustMarshal", "codec.BinaryCodec.Marshal", "codec.Codec.MustMarshal", "codec.Codec.Marshal", "codec.BinaryCodec.MustMarshalLengthPrefixed", ".String", "codec.JSONCodec.MustMarshalJSON"}
